@@ -85,7 +85,10 @@ class StmtMixin:
         self.assign(node.target, self.binop(node.op, cur, rhs, st, node), st, node)
 
     def ex_Delete(self, node, st):
+        targets = []
         for t in node.targets:
+            targets += list(t.elts) if isinstance(t, (ast.Tuple, ast.List)) else [t]
+        for t in targets:
             if isinstance(t, ast.Attribute):
                 obj = self.ev(t.value, st)
                 self.deleted_attrs.append((obj.ty.cls, t.attr))
